@@ -421,14 +421,16 @@ fn get_path_and_canonicalized_parameters(url: &Uri) -> (String, String) {
 
     let query_pairs = query_pairs(url);
     let mut canonicalized_parameters = String::new();
-    let mut pairs: HashMap<String, (String, String)> = HashMap::new();
+    let mut pairs: HashMap<(String, String), (String, String)> = HashMap::new();
     if !query_pairs.is_empty() {
         for (key, value) in query_pairs {
             let key = key.to_lowercase();
             pairs.insert(
                 // add the query parameter value for sorting,
                 // just in case of duplicate keys by value lexicographically in ascending order.
-                format!("{}{}", key, value),
+                // keep the key itself as well, two different pairs may concatenate to the same
+                // string (a=bc & ab=c) and neither of them must be dropped.
+                (format!("{}{}", key, value), key.to_string()),
                 (key.to_lowercase(), value.to_string()),
             );
         }
@@ -443,7 +445,7 @@ fn get_path_and_canonicalized_parameters(url: &Uri) -> (String, String) {
             let query_pair = pairs[key].clone();
             // Join each parameter key value pair with '='
             let p = if query_pair.1.is_empty() {
-                key.to_string()
+                query_pair.0.to_string()
             } else {
                 format!("{}={}", query_pair.0, query_pair.1)
             };
